@@ -12,6 +12,7 @@ import (
 	"context"
 	"encoding/hex"
 	"fmt"
+	"math/rand"
 	"os"
 	"path/filepath"
 	"reflect"
@@ -352,6 +353,11 @@ func c13RunCase(line string, root string, idx int, templates string) (res string
 		}
 	}()
 	f := strings.Fields(line)
+	conc := false
+	if len(f) > 0 && f[0] == "conc" {
+		conc = true
+		f = f[1:]
+	}
 	if len(f) < 2 || f[0] != "reg" {
 		return "badline"
 	}
@@ -414,6 +420,12 @@ func c13RunCase(line string, root string, idx int, templates string) (res string
 		cd.startupConfig = cd.deepCopyConfig(cd.runningConfig)
 		cd.refreshMixedAccessSet()
 		cd.refreshSGSnapshot()
+	}
+	if conc {
+		c13Envs.Store(cd, env)
+		defer c13Envs.Delete(cd)
+		seed, _ := strconv.ParseInt(os.Getenv("VERIF_SEED"), 10, 64)
+		return c13RunConc(cd, f[p:], goodStartup, goodVerDir, seed*1000003+int64(idx))
 	}
 	if p >= len(f) || f[p] != "ops" {
 		return "badline"
@@ -541,6 +553,110 @@ func c13RunCase(line string, root string, idx int, templates string) (res string
 		return "empty"
 	}
 	return strings.Join(out, " ; ")
+}
+
+// concurrent mode: "threads <T> <ops of thread 0> | <ops of thread 1> | ..." where an op is one token:
+// c | x | d | m | s:<path>:<value>.  Every thread addresses the session it created itself.
+func c13RunConc(cd *ConfigManager, f []string, goodStartup, goodVerDir string, seed int64) string {
+	if len(f) < 2 || f[0] != "threads" {
+		return "badline"
+	}
+	nt, _ := strconv.Atoi(f[1])
+	scripts := make([][]string, nt)
+	t := 0
+	for _, tok := range f[2:] {
+		if tok == "|" {
+			t++
+			continue
+		}
+		if t >= nt {
+			return "badline"
+		}
+		scripts[t] = append(scripts[t], tok)
+	}
+	results := make([][]string, nt)
+	start := make(chan struct{})
+	var wg sync.WaitGroup
+	for i := 0; i < nt; i++ {
+		wg.Add(1)
+		go func(i int) {
+			defer wg.Done()
+			defer func() {
+				if r := recover(); r != nil {
+					results[i] = append(results[i], "panic")
+				}
+			}()
+			my := conf.SessionID("session-0")
+			rnd := rand.New(rand.NewSource(seed + int64(i)*7919))
+			<-start
+			for _, op := range scripts[i] {
+				// spread the operations of the threads over a few hundred microseconds so that they overlap
+				time.Sleep(time.Duration(rnd.Intn(300)) * time.Microsecond)
+				var r string
+				// a digit after the op letter addresses that session id explicitly (shared sessions)
+				tgt := my
+				if len(op) >= 2 && op[1] >= '0' && op[1] <= '9' && (op[0] == 's' || op[0] == 'm' || op[0] == 'x') {
+					tgt = conf.SessionID("session-" + string(op[1]))
+					op = op[:1] + op[2:]
+				}
+				switch {
+				case op == "c":
+					id, err := cd.CreateCandidateSession()
+					if err != nil {
+						r = c13Err(err)
+					} else {
+						r = string(id)
+						my = id
+					}
+				case op == "x":
+					r = c13Err(cd.CloseCandidateSession(tgt))
+				case op == "d":
+					r = c13Err(cd.Delete(my, "interfaces.eth0"))
+				case op == "m":
+					r = c13Err(cd.Commit(tgt))
+				case strings.HasPrefix(op, "s:"):
+					parts := strings.SplitN(op, ":", 3)
+					v, ok := c13ParseVal(parts[2])
+					if !ok {
+						r = "badvalue"
+					} else {
+						r = c13Err(cd.Set(tgt, parts[1], v))
+					}
+				case op == "g":
+					// a reader: running must always be a configuration some commit published
+					cfg, _ := cd.GetRunning()
+					_ = c13Project(cfg)
+					r = "ok"
+				default:
+					r = "badop"
+				}
+				results[i] = append(results[i], r)
+			}
+		}(i)
+	}
+	close(start)
+	wg.Wait()
+	var parts []string
+	for i := 0; i < nt; i++ {
+		parts = append(parts, "T"+strconv.Itoa(i)+":"+strings.Join(results[i], ","))
+	}
+	snap := cd.c13Snapshot(goodStartup, goodVerDir)
+	var st []string
+	for i := range snap {
+		st = append(st, c13Names[i]+"="+snap[i])
+	}
+	tr := "-"
+	if len(cd.c13env().trace) > 0 {
+		tr = strings.Join(cd.c13env().trace, ",")
+	}
+	return strings.Join(parts, " ") + " | " + strings.Join(st, " ") + " A=" + tr
+}
+
+var c13Envs sync.Map
+
+func (cd *ConfigManager) c13env() *c13Env {
+	v, _ := c13Envs.Load(cd)
+	return v.(*c13Env)
 }
 
 func c13GuardConfig(ifn string, mru uint16) *config.Config {
